@@ -14,6 +14,7 @@ import (
 	"os"
 	"strings"
 	"sync/atomic"
+	"syscall"
 	"time"
 
 	"github.com/jech/storrent/alloc"
@@ -256,6 +257,22 @@ func (e *engine) stop() {
 	}
 }
 
+// failLeft: the next failLeft calls of alloc.Alloc fail (op `failalloc k`); consulted by the
+// hook alloc.VerifSetFailAlloc from whichever goroutine allocates.
+var failLeft atomic.Int64
+
+func failAllocFn(size int) bool {
+	for {
+		n := failLeft.Load()
+		if n <= 0 {
+			return false
+		}
+		if failLeft.CompareAndSwap(n, n-1) {
+			return true
+		}
+	}
+}
+
 var journalF *os.File
 
 func journal(s string) {
@@ -318,6 +335,8 @@ func errTok(err error) string {
 		return "deleted"
 	case errors.Is(err, piece.ErrHashMismatch):
 		return "mismatch"
+	case errors.Is(err, syscall.ENOMEM):
+		return "nomem"
 	case err.Error() == "adding data at odd offset":
 		return "odd"
 	case err.Error() == "adding data beyond end of piece":
